@@ -437,6 +437,8 @@ nni_aio_start(nni_aio *aio, nni_aio_cancel_fn cancel, void *data)
 		aio->a_stop      = true;
 		aio->a_sleep     = false;
 		aio->a_expire_ok = false;
+		// the operation ends here: no deadline left over for the next one
+		aio->a_use_expire = false;
 		aio->a_count     = 0;
 		aio->a_result    = NNG_ESTOPPED;
 		aio->a_stopped   = true;
@@ -454,6 +456,8 @@ nni_aio_start(nni_aio *aio, nni_aio_cancel_fn cancel, void *data)
 		aio->a_sleep     = false;
 		aio->a_abort     = false;
 		aio->a_expire_ok = false;
+		// the operation ends here: no deadline left over for the next one
+		aio->a_use_expire = false;
 		aio->a_count     = 0;
 		aio->a_result    = aio->a_abort_rv;
 		NNI_ASSERT(aio->a_result != NNG_OK);
@@ -472,6 +476,8 @@ nni_aio_start(nni_aio *aio, nni_aio_cancel_fn cancel, void *data)
 		aio->a_sleep     = false;
 		aio->a_result    = aio->a_expire_ok ? NNG_OK : NNG_ETIMEDOUT;
 		aio->a_expire_ok = false;
+		// the operation ends here: no deadline left over for the next one
+		aio->a_use_expire = false;
 		aio->a_count     = 0;
 #ifdef NNG_VERIF
 		if (aio->a_v_cb != NULL) {
